@@ -30,6 +30,10 @@ def state_key(W, this):
         out.append((i, reg.kind, reg.extent, tuple(body)))
         return i
     ser(this.reg)
+    # process-wide state written by calls since construction (function-local statics and their guards, file-scope variables):
+    # part of the state a later call may depend on
+    for reg in sorted(I.global_writes, key=lambda r: r.name):
+        out.append(('global', reg.name, ser(reg)))
     return tuple(out)
 
 
@@ -56,7 +60,7 @@ def ops_for(cap, tier):
 def run(rep, tier, seed):
     rep.rule_text = ('reachability over the abstract state of one transform object: starting from the freshly constructed object, every operation of '
                      'the alphabet {NTT, INTT, extendPol} x sizes x two phase/block settings is applied in every distinct reachable object state '
-                     '(state = all fields and owned tables, canonically serialised); each call must deliver exactly the specified coefficient '
+                     '(state = all fields and owned tables plus every global written by a call since construction, canonically serialised); each call must deliver exactly the specified coefficient '
                      'vectors (= what a fresh object delivers, C03-C05), for all input data. Closure of the explored state set under all operations '
                      'covers every finite call sequence over the alphabet. Shape-independent rules: field write sets per method, memo guard on the '
                      'cached coset table')
